@@ -61,8 +61,9 @@ def make_case(rnd, lname, tlib, bf):
     for kind, iname, pm in mod['insts']:
         outs = [p for p in pm if tlib.pin_is_output(kind, p)]
         allouts = [p for p, (i, o) in tlib.cells[kind][1].items() if o]
-        for p, s in pm.items():
-            if tlib.pin_is_output(kind, p) or rnd.random() < 0.25:
+        allins = [p for p, (i, o) in tlib.cells[kind][1].items() if not o]
+        for p in allins:                     # pins the netlist leaves unconnected get entries too: nothing to annotate, nothing lost
+            if (p not in pm and rnd.random() < 0.5) or rnd.random() < 0.25:
                 continue
             mode = rnd.choice(['none', 'none', 'pos', 'neg', 'both'])
             for edge in {'none': [''], 'pos': ['posedge'], 'neg': ['negedge'], 'both': ['posedge', 'negedge']}[mode]:
@@ -72,7 +73,7 @@ def make_case(rnd, lname, tlib, bf):
                 f = r if single else vals()
                 ip = ('(%s %s)' % (edge, p)) if edge else p
                 txt = '(IOPATH %s %s %s%s)' % (ip, o, triple_txt(rnd, r), '' if single else ' ' + triple_txt(rnd, f))
-                ents.append((iname, txt, dict(io=True, inst=idx[iname], pin=tlib.pin_index(kind, p), edge=edge or 'none',
+                ents.append((iname, txt, dict(io=True, noline=p not in pm, inst=idx[iname], pin=tlib.pin_index(kind, p), edge=edge or 'none',
                                               r=r or [0, 0, 0], f=f or [0, 0, 0], **{'from': 0, 'fpin': 0, 'to': 0, 'tpin': 0})))
     # interconnects: driver endpoint -> reader endpoint over one signal
     drivers = {}
@@ -96,13 +97,32 @@ def make_case(rnd, lname, tlib, bf):
                 continue            # no branch fork and fan-out: nothing to annotate (documented warning)
             if rp is None and rn not in idx:
                 continue
-            r, f = vals(False), vals(False)
+            r, f = vals(), vals()                # empty triples read as 0 here too
             a = dn if dp is None else '%s/%s' % (dn, dp)
             b = rn if rp is None else '%s/%s' % (rn, rp)
             esc = lambda x: x.replace('$', '\\$').replace('[', '\\[').replace(']', '\\]') if rnd.random() < 0.5 else x      # escaped special characters, as SDF writers emit them
             txt = '(INTERCONNECT %s %s %s %s)' % (esc(a), esc(b), triple_txt(rnd, r), triple_txt(rnd, f))
-            ents.append((None, txt, dict(io=False, inst=0, pin=0, edge='none', r=r, f=f, **{'from': idx[dn], 'fpin': 0 if dp is None else tlib.pin_index(dk, dp),
+            ents.append((None, txt, dict(io=False, noline=False, inst=0, pin=0, edge='none', r=r or [0, 0, 0], f=f or [0, 0, 0], **{'from': idx[dn], 'fpin': 0 if dp is None else tlib.pin_index(dk, dp),
                                                                                           'to': idx[rn], 'tpin': 0 if rp is None else tlib.pin_index(rk, rp)})))
+    # interconnects that name a pin without a line (unconnected input pin, unused output pin): nothing to annotate
+    for kind, iname, pm in mod['insts']:
+        pins = tlib.cells[kind][1]
+        for p, (pi, po) in pins.items():
+            if p in pm or rnd.random() < 0.5 or not drivers:
+                continue
+            r, f = vals(), vals()
+            if po:
+                tgt = [(rn, rp, rk) for rds in readers.values() for (rn, rp, rk) in rds if rp is not None]
+                if not tgt: continue
+                rn, rp, rk = rnd.choice(tgt)
+                a, b = '%s/%s' % (iname, p), '%s/%s' % (rn, rp)
+                e = {'from': idx[iname], 'fpin': pi, 'to': idx[rn], 'tpin': tlib.pin_index(rk, rp)}
+            else:
+                dn, dp, dk = drivers[rnd.choice(sorted(drivers))]
+                a, b = dn if dp is None else '%s/%s' % (dn, dp), '%s/%s' % (iname, p)
+                e = {'from': idx[dn], 'fpin': 0 if dp is None else tlib.pin_index(dk, dp), 'to': idx[iname], 'tpin': pi}
+            ents.append((None, '(INTERCONNECT %s %s %s %s)' % (a, b, triple_txt(rnd, r), triple_txt(rnd, f)),
+                         dict(io=False, noline=True, inst=0, pin=0, edge='none', r=r or [0, 0, 0], f=f or [0, 0, 0], **e)))
     rnd.shuffle(ents)
     # grouping into CELL blocks: consecutive entries of the same owner may or may not share a block
     blocks = []
@@ -173,17 +193,18 @@ def main(tier=None, replay=None):
         ck.violation('%s:%s' % (clause, gen.digest(mt)), '%s fails (%s, branchforks=%s, %d entries) %s' % (clause, mt['lib'], mt['bf'], len(x['ents']), x.get('err', '')),
                      dict(kind='sdf', digest=gen.digest(mt), clause=clause, verilog=mt['verilog'], sdf=mt['sdf']))
     if mach and not ck.violations:
-        raise MachineryError('generated an SDF entry without a line to land on (case %d)' % mach[0])
+        raise MachineryError('generator and model disagree on which SDF entries have a line to land on (case %d)' % mach[0])
     for x, mt in zip(recs, metas):
+        ck.count('entries-naming-unconnected-pins', sum(1 for e in x['ents'] if e['noline']))
         ck.nontrivial.add(gen.digest(mt))
         ck.count('iopath-entries', sum(1 for e in x['ents'] if e['io']))
         ck.count('interconnect-entries', sum(1 for e in x['ents'] if not e['io']))
         ck.count('edge-qualified', sum(1 for e in x['ents'] if e['edge'] != 'none'))
         ck.count('files-with-repeated-blocks', 1 if len(set(l for l in mt['sdf'].split('\n') if 'INSTANCE' in l)) < mt['sdf'].count('INSTANCE') else 0)
         ck.count('branchforks' if mt['bf'] else 'no-branchforks')
-    ck.need_cover(['iopath-entries', 'interconnect-entries', 'edge-qualified', 'files-with-repeated-blocks', 'branchforks', 'no-branchforks'])
+    ck.need_cover(['entries-naming-unconnected-pins', 'iopath-entries', 'interconnect-entries', 'edge-qualified', 'files-with-repeated-blocks', 'branchforks', 'no-branchforks'])
     ck.sample(dict(sdf_text=metas[0]['sdf'], entries=recs[0]['ents'][:3]))
-    ck.assumptions += ['interconnect entries only where a branch fork or a sole reader exists (otherwise the code documents a warning)',
+    ck.assumptions += ['interconnect entries between connected pins only where a branch fork or a sole reader exists (otherwise the code documents a warning); entries naming unconnected pins are expected to annotate nothing',
                        'no two entries write the same array cell (the statement defines no precedence)', 'values are multiples of 1/8 (exact in floating point)',
                        'the SDF/Verilog renderers of the harness (trusted); TLC, JSON reader, projection']
     return ck.finish('seeded random modules (parsed from rendered Verilog, both branchforks settings, three libraries) x abstract SDF entry lists x random '
